@@ -36,6 +36,7 @@ def run(ctx, res):
     start_of_file(ctx, res, "C13.R2")
     deletion.indent_begins_behind_break(ctx, res, "C13.R6")
     deletion.scanner_tables(ctx, res, "C13.R7", mode="complete")
+    indent_only_at_line_end(ctx, res, "C13.R8")
     empty_line_table(ctx, res, "C13.R3")
     prev_next_tables(ctx, res, "C13.R4")
     deletion.merged_before_delete(ctx, res, "C13.R5")
@@ -124,6 +125,43 @@ def hull(ctx, res, rule):
         res.holds(rule, fshort(bf), "formatter-set", ", ".join(got))
     else:
         res.add(Finding(rule, fshort(bf), "formatter-set", "seam formatters are %s, expected %s" % (got, want), loc=T.loc(bf["tree"])))
+
+
+def indent_only_at_line_end(ctx, res, rule):
+    """IndentRemover acts only when the seam byte is a line break (the removed tag stood at the end of its line's content):
+    before the backward scan there is an early return of the empty range on `byte at the seam is not a line break`.  Without
+    it the indentation in front of text that survives on the tag's line would be deleted."""
+    from .. import forward
+    P = ctx.lib
+    b = P.fn("IndentRemover::format")
+    fn = fshort(b)
+    loc = T.loc(b["tree"])
+    seam = b["params"][2]["pat"].get("name") if len(b["params"]) == 3 else None
+    names = {seam}
+    for s_ in T.nodes(b["tree"], "let"):
+        if s_["pat"]["p"] == "bind" and s_.get("init") is not None and T.render(s_["init"]) == seam:
+            names.add(s_["pat"]["name"])
+    blk = T.peel(b["tree"])
+    while blk.get("k") == "blockexpr":
+        blk = blk["block"]
+    ok = False
+    for st in blk.get("stmts", []):
+        if any(x.get("k") in ("loop", "for") for x in T.nodes(st)):
+            break
+        e = T.peel(st["e"]) if st.get("k") == "expr" else None
+        if e is None or e.get("k") != "if" or e.get("els") is not None:
+            continue
+        rets = [T.render(T.peel(r_["e"])) for r_ in T.nodes(e["then"], "ret") if r_.get("e") is not None]
+        if rets != ["(%s, %s)" % (seam, seam)]:
+            continue
+        for j in forward._juncts(e["cond"], "||"):
+            if any(deletion.newline_test(j, nm) is False for nm in names):
+                ok = True
+    if ok:
+        res.holds(rule, fn, "acts-only-on-line-break", "early return of the empty range unless the seam byte is a line break")
+    else:
+        res.add(Finding(rule, fn, "acts-only-on-line-break", "no early return of the empty range for a seam that is not a line break was found in front of the backward scan: "
+                        "the indentation of a line whose text survives behind the removed tag would be deleted", loc=loc))
 
 
 def start_of_file(ctx, res, rule):
